@@ -176,15 +176,15 @@ Lemma nowrap_restricts P flags fuel p e M r :
   run_program (chia_dialect P flags) fuel p e M = Ok r.
 Proof.
   intros H.
-  pose proof (run_program_rel (nowrap_dialect P flags) (chia_dialect P flags) (fun e => e = Overflow 64)
-    eq_refl eq_refl eq_refl (fun _ => eq_refl) (fun _ => eq_refl) eq_refl) as R.
-  cbn [d_flags nowrap_dialect chia_dialect d_allow_unknown d_op] in R.
-  specialize (R (fun size t => rr_refl _ _)). specialize (R (or_introl eq_refl) (or_introl eq_refl) (or_introl eq_refl)).
   assert (Hop : forall o a m ext, rr (fun e => e = Overflow 64) (nowrap_op P true (dialect_flags flags) o a m ext)
                                      (chia_op P true (dialect_flags flags) o a m ext)).
   { intros o a m ext. unfold nowrap_op. destruct o as [b|]; [|apply rr_refl].
     destruct (unknown_no_wrap_b b _ a); [apply rr_refl|left; reflexivity]. }
-  specialize (R Hop fuel p e M). rewrite H in R. exact R.
+  pose proof (run_program_rel (nowrap_dialect P flags) (chia_dialect P flags) (fun e => e = Overflow 64)
+    eq_refl eq_refl (fun _ => eq_refl) Hop) as R.
+  assert (HG : guards_agree (nowrap_dialect P flags) (chia_dialect P flags) (fun e => e = Overflow 64)).
+  { repeat split; try reflexivity; try (left; reflexivity). intros size t. apply rr_refl. }
+  specialize (R (or_intror HG) fuel p e M). rewrite H in R. exact R.
 Qed.
 
 (* C02 tightness for ChiaDialect under the pre-hard-fork cost model, outside the F6 class *)
